@@ -16,7 +16,7 @@ func init() {
 		Level: "other",
 		Explanation: "Decided (structural necessary conditions of 'layout only regroups text'): (R9.1) in every regrouping and text-assembly function named by the property, each accumulating loop transfers its element (fragment, line, paragraph, block, column) on every iteration path, or skips it only under an emptiness test; every other skip is a lossy filter and must be a listed known finding or an explicitly justified de-duplication; (R9.2) no iteration path of a text-assembly loop writes the element's text twice; (R9.3) merging loops thread their accumulator (the merged value so far), so nothing merged earlier is forgotten. " +
 			"Not decided: multiset equality of characters, duplication through overlapping assignment at run time, ordering.",
-		Rules: []func(*eng.Ctx){ruleExtractorTextKeepsCharactersEvaluated, ruleLayoutKeepsCharactersEvaluated, ruleNoCharacterClassFilter, derivedFieldRule("R9.DF", "text", "layout"), loopVarRule("R9.LV", "layout", "tables"), ruleLossyFilterC09, ruleMergeThreading, ruleNoInputAlias, ruleTextUnmodified, roleRule("R9.R", "layout"), ruleParagraphPageCoordinates},
+		Rules: []func(*eng.Ctx){constructorBypassedRule("R9.CL", "layout", "text"), deleteInRangeRule("R9.DR", "layout", "text"), ruleExtractorTextKeepsCharactersEvaluated, ruleLayoutKeepsCharactersEvaluated, ruleNoCharacterClassFilter, derivedFieldRule("R9.DF", "text", "layout"), loopVarRule("R9.LV", "layout", "tables"), ruleLossyFilterC09, ruleMergeThreading, ruleNoInputAlias, ruleTextUnmodified, roleRule("R9.R", "layout"), ruleParagraphPageCoordinates},
 	})
 }
 
